@@ -21,6 +21,9 @@ pub enum Plan {
     JoinCycles(u32),
     /// the given join offsets
     JoinAt(Vec<usize>),
+    /// every join offset of the first cycle with a one-shot storage fault: the first open() of every object fails
+    /// (oracle only: still delivered within two further full cycles)
+    JoinFault,
 }
 
 #[derive(Clone, Debug)]
@@ -260,7 +263,7 @@ pub fn expand(plan: &Plan, sp: &SessP, st: &[PktInfo]) -> Vec<String> {
                 out.push(render(&m, false));
             }
         }
-        Plan::JoinAll | Plan::JoinCycles(_) | Plan::JoinAt(_) => {}
+        Plan::JoinAll | Plan::JoinCycles(_) | Plan::JoinAt(_) | Plan::JoinFault => {}
     }
     out
 }
@@ -961,7 +964,8 @@ pub fn gen_c16(seed: u64, thorough: bool) -> Vec<CaseSpec> {
                                 }
                             }
                         }
-                        cases.push(CaseSpec { id: format!("C16-{}", n), sp, plans: vec![Plan::JoinAll] });
+                        let plans = if n % 5 == 0 { vec![Plan::JoinAll, Plan::JoinFault] } else { vec![Plan::JoinAll] };
+                        cases.push(CaseSpec { id: format!("C16-{}", n), sp, plans });
                     }
                 }
             }
